@@ -178,5 +178,16 @@ def body(check):
         nvars += r or 0
     check.floor("registered variables", nvars, 14 + 14 + 15 + 3 + 1)
     dispatch(check)
+    # nozzle massflow = rho*u*S(x_c): the positions the section law is evaluated at are the mesh's
+    # cell centres on every mesh (same obligation as C19 NOZ-GEOM, the `_xc` clause)
+    from . import c19
+    n0 = len(check.obs)
+    check.guarded("NOZ-XC", "euler.nozzle.initdisc", lambda: c19.noz_geom(check, check.proj))
+    kept = []
+    for o in check.obs[n0:]:
+        if o.key == "xc" or o.status == "undecided":
+            o.rule = "NOZ-XC"
+            kept.append(o)
+    check.obs[n0:] = kept
     from ..units import check_variable_units
     check_variable_units(check, "UNIT-HOMOG")
